@@ -22,7 +22,8 @@ RULE = (
 ASSUMPTIONS = [
     "TCP stream model: in-order bytes, arbitrary segmentation, delivery only through StreamReaderProtocol.data_received",
     "gateway frames are encoded by an independent encoder (HSFZ header: 4-byte length, 2-byte control word, optional 2-byte address pair)",
-    "status control words 0x10/0x11/0x13 and undefined control words are outside the strict alphabet (statement only fixes error words)",
+    "status control words 0x10/0x11/0x13 and undefined control words (0x0000, 0x00fe; with and without address pair): the statement only fixes error "
+    "words, so a run is accepted if it is consistent with reading the word as an error word (connection error + close) or with ignoring it",
     "callbacks run FIFO exactly like asyncio; no early timers (time does not pass while tasks are runnable)",
 ]
 
@@ -31,6 +32,7 @@ worker_init = demux.worker_init
 W1 = "2210f1aabb"
 W2 = "3e00"
 PROGRAMS = {
+    "sr": [("sleep", 0.5), ("read", 1.0)],
     "wr": [("write", W1), ("read", 1.0)],
     "r": [("read", 1.0)],
     "ww": [("write", W1), ("write", W2)],
@@ -39,6 +41,7 @@ PROGRAMS = {
 ALPHA_FULL = [
     "ack1", "ack2", "data:62f1aa", "data:7f2278", "alive0", "err40", "fdataS:aa", "ack1-echo", "ack1-pair",
     "alive2", "errA43", "errff", "fdataD:bb", "ack1-short", "short-data0", "short-data1", "short-ack1", "ack2-echo", "fdataR:2210f1aabb",
+    "undef0000", "undef0010", "undefA0000", "undef00fe",
 ]
 ALPHA_CORE = ["ack1", "ack2", "data:62f1aa", "data:7f2278", "alive0", "err40", "fdataS:aa", "ack1-echo"]
 
@@ -99,6 +102,14 @@ def items(tier: str, seed: int) -> list[Any]:
             for times, ack_at in (((0.6,), 1.2), ((0.4, 0.8), 1.3), ((0.6,), 0.9), ((0.5, 0.9), 0.95)):
                 fr = [(filler, 1, T * t) for t in times] + [("ack1", 1, T * ack_at), ("data:7f2278", 1, T * ack_at)]
                 add(fr, "wr", "frames", ms)
+    # long histories: many frames pending while the client is idle / between a request and its ack (a bounded or
+    # lossy hand-over between the reader task and the consumers only shows beyond its capacity)
+    for n in (17, 33, 70, 130) if quick else (9, 17, 33, 65, 70, 129, 130, 300):
+        for filler in ("fdataS:aa", "data:62f1aa"):
+            add([(filler, 0)] * n + [("alive0", 0)], "sr", "frames", b=0)
+            add([(filler, 0)] * n + [("alive0", 0)], "sr", "one", b=1)
+            add([(filler, 1)] * n + [("ack1", 1), ("data:7f2278", 1)], "wr", "frames", b=0)
+            add([(filler, 1)] * n + [("ack1", 1), ("alive0", 1), ("data:7f2278", 1)], "wr", "one", b=1)
     # ack timeouts
     for ms in (250, 2500):
         for fr in scripts(ALPHA_CORE, 2, 1):
